@@ -1592,7 +1592,7 @@ Proof.
     destruct (k_chan s) as [[i [|]]|] eqn:Hch; try exact I. destruct (k_dead s) eqn:Hd; [exact I|].
     eapply wpT_mono; [exact P0|]. eapply handleError_I; eauto.
   - (* TimerFire *)
-    destruct (min_due (timers s)) as [t0|] eqn:Hm; [|exact I]. destruct (has_dup _); [exact I|].
+    destruct (min_due (timers s)) as [t0|] eqn:Hm; [|exact I].
     apply TimerFire_I; auto.
   - (* RunPending *)
     apply wpT_bind. eapply wpT_mono; [|apply run_n_batch; [exact HI|]].
@@ -1622,7 +1622,8 @@ Proof.
   - (* UserRelease *)
     destruct (find_user (conns s) 0) as [c|] eqn:Hu; [|exact I].
     destruct (nth_error (conns s) c) as [o|] eqn:Ho; [|exact I].
-    destruct ((refs s c =? 1)%nat && negb match cst o with CDisconnected => negb (creg o) | _ => false end) eqn:G; [exact I|].
+    assert (G : (refs s c =? 1)%nat && negb match cst o with CDisconnected => negb (creg o) | _ => false end = false).
+    { cbn in Hc. unfold release_ok in Hc. rewrite Hu, Ho in Hc. destruct (_ && _); auto; discriminate. }
     apply wpT_ret. destruct C as [D C]. pose proof C as C0. cdestr C0.
     destruct (find_user_some _ _ _ Hu) as (o' & Ho' & _ & Hpos). rewrite Nat.sub_0_r, Ho in Ho'. injection Ho' as <-.
     assert (Ha : calive o = true).
